@@ -109,7 +109,9 @@ def run(tier):
     # push an include buffer, yywrap() answers stop / new yyin / new buffer / pop back / delete + switch to a saved buffer, and the
     # user creates, switches, flushes, restarts and scans in-memory buffers between calls.  yyinput() must deliver the next byte of
     # the buffer that is current after yywrap() had its say, and its end-of-input value only when yywrap() said 1.
-    dev = 3 if tier == "quick" else 4
+    # bound 3 in both tiers (the thorough tier adds read sizes): bound 4 with yyinput() in the menu was started twice and did not finish
+    # within 15 minutes on a loaded machine, so it is not registered (C11's thorough tier runs bound 4 without yyinput())
+    dev = 3
     full = 0x1fff & ~(1 << 12)
     bjobs = []
     for api in ("NR", "R", "C99"):
